@@ -276,6 +276,14 @@ func mutatorOutside(f *ssa.Function) bool {
 		return true
 	case "encoding/json":
 		return o.Name() == "Unmarshal"
+	case "text/template", "html/template":
+		// methods that configure or extend a template write into it (and into the set it shares)
+		if r := o.Type().(*types.Signature).Recv(); r != nil {
+			switch o.Name() {
+			case "Option", "Funcs", "Delims", "Parse", "ParseFiles", "ParseGlob", "ParseFS", "AddParseTree", "New":
+				return true
+			}
+		}
 	case "bytes":
 		if r := o.Type().(*types.Signature).Recv(); r != nil {
 			n := o.Name()
